@@ -296,12 +296,22 @@ def go_build(prop, pkgdir):
             srcp = os.path.join(VERIF, "harness", src)
         repl[os.path.join(REPO, dest)] = srcp
     os.makedirs(BUILD, exist_ok=True)
-    ov = os.path.join(BUILD, "overlay_%s.json" % prop)
-    json.dump({"Replace": repl}, open(ov, "w"), indent=1)
-    binp = os.path.join(BUILD, "verif_%s" % prop.lower())
+    # one binary / overlay file per checked tree (a check of /repo and a check of a scratch worktree may run at the same time);
+    # built under a private name and renamed, so that a binary another check is executing is never written to
+    tag = "" if os.path.realpath(REPO) == "/repo" else "_" + hashlib.sha1(os.path.realpath(REPO).encode()).hexdigest()[:8]
+    ov = os.path.join(BUILD, "overlay_%s%s.json" % (prop, tag))
+    tmp_ov = "%s.%d" % (ov, os.getpid())
+    json.dump({"Replace": repl}, open(tmp_ov, "w"), indent=1)
+    os.replace(tmp_ov, ov)
+    binp = os.path.join(BUILD, "verif_%s%s" % (prop.lower(), tag))
+    tmp_bin = "%s.%d.tmp" % (binp, os.getpid())
     with Lock("go"):
-        p = subprocess.run(["go", "build", "-tags", "verif", "-overlay", ov, "-o", binp, "./" + pkgdir],
+        p = subprocess.run(["go", "build", "-tags", "verif", "-overlay", ov, "-o", tmp_bin, "./" + pkgdir],
                            cwd=REPO, env=goenv(), stdout=subprocess.PIPE, stderr=subprocess.STDOUT, text=True)
+        if p.returncode == 0:
+            os.replace(tmp_bin, binp)
+    if os.path.exists(tmp_bin):
+        os.remove(tmp_bin)
     if p.returncode != 0:
         raise BuildError(p.stdout)
     return binp
